@@ -5,7 +5,7 @@ import ast
 import os
 
 from . import pyextract as px
-from .vlib import COQ, Check, cps
+from .vlib import COQ, Check, cps, uncps
 
 PID = "C20"
 CLAIM = dict(
@@ -530,7 +530,8 @@ def gen() -> None:
     raises = [n for n in ast.walk(gh) if isinstance(n, ast.Raise)]
     if len(raises) != 1 or not norm(raises[0].exc).startswith("SecurityError("):
         raise px.Unsupported("get_host no longer raises exactly SecurityError")
-    strs = {n.value for n in ast.walk(gh) if isinstance(n, ast.Constant) and isinstance(n.value, str) and len(n.value) < 8}
+    # the port / scheme literals may live in get_host or in module-level tables it uses
+    strs = {n.value for n in ast.walk(utils) if isinstance(n, ast.Constant) and isinstance(n.value, str) and len(n.value) < 8}
     for lit in ("http", "ws", "https", "wss", ":80", ":443", ":", "[", ""):
         if lit not in strs:
             raise px.Unsupported(f"get_host no longer mentions the literal {lit!r}")
@@ -697,8 +698,25 @@ TRUSTED_LISTS = [[".localhost", "127.0.0.1"], ["localhost"], [".localhost:8080"]
                  [".com"], ["x" * 64, "localhost"], ["\ud800", "localhost"], ["::1"], [".[::1]"], ["evil.com:localhost"]]
 
 
+# first in every run (also among the hosts the quick tier sends through get_host / Request)
+PRIORITY_HOSTS = [
+    # compatibility characters that IDNA's nameprep (NFKC) folds to ':' '.' '/' '@' ... after a trusted name
+    "localhost\uff1aevil.com", "localhost\ufe55evil.com", "127.0.0.1\uff1a.evil.com", "app.localhost\uff1a80.evil.com",
+    "localhost\uff1aevil.com:8080", "localhost\ufe13evil.com", "evil.com\uff1a.localhost", "example.org\uff1aevil.com",
+    "evil\uff0elocalhost", "evil.com\uff0elocalhost", "evil\uff61localhost", "localhost\uff0eevil.com", "localhost\uff0fevil.com",
+    "localhost\uff20evil.com", "localhost\uff03evil.com", "localhost\uff1fevil.com", "\uff4cocalhost", "\uff11\uff12\uff17.0.0.1",
+    "localhost\u2024evil.com", "localhost\ufe52evil.com", "\uff3b::1\uff3d", "[::1\uff3d:80", "local\u00adhost", "localhost\u200b.evil.com",
+    "localhost\uff1a80", "[::1]\uff1a80",
+    # hosts that end in the characters of a default port, with and without that port
+    "10.0.0.80:80", "web-0:80", "node8.cluster80:80", "192.168.0.100:80", "10.1.2.34:443", "shard-3.db44:443", "[2001:db8::80]:80",
+    "[2001:db8::443]:443", "10.0.0.80:8080", "10.0.0.80", "web-0", "localhost0:80", "localhost8:80", "example.org:8080:80",
+    "localhost:80", "localhost:443", "sub.localhost:80", "127.0.0.1:80", "127.0.0.1:443", "example.com:80", "example.org:443",
+    "[::1]:80", "[::1]:443", ":80", ":443", "80:80", "0:80", "8:80", "443:443", "4:443", "localhost::80", "localhost:8080",
+]
+
+
 def gen_hosts(rng, n_random: int) -> list:
-    hosts = list(SPECIAL) + list(V6)
+    hosts = list(PRIORITY_HOSTS) + list(SPECIAL) + list(V6)
     for a in LABELS:
         hosts.append(a)
         for b in ["localhost", "com", "example.com", "evil.com", "b\u00fccher.example", ""]:
@@ -908,10 +926,11 @@ PRODUCT_HOSTS = ["localhost", "localhost:5000", "sub.localhost", "a.b.localhost:
                  "evillocalhost", "localhost.evil.com", "evil.com", "127.0.0.1.evil.com", "127.0.0.2", None, "",
                  "LOCALHOST", "Sub.LocalHost", "b\u00fccher.localhost", "xn--bcher-kva.localhost", "b\u00fccher.example",
                  "[::1]", "[::1]:5000", "[::2]", "[::1]evil.com", "a..localhost", ".localhost", "x" * 64 + ".localhost",
-                 "localhost.", "localhost:80:evil", "evil.com:localhost", "lo\u0441alhost", "sub\u3002localhost", "\ud800"]
+                 "localhost.", "localhost:80:evil", "evil.com:localhost", "lo\u0441alhost", "sub\u3002localhost", "\ud800",
+                 "localhost\uff1aevil.com", "127.0.0.1\ufe55.evil.com", "evil.com\uff0elocalhost"]
 QUICK_HOSTS = ["localhost:5000", "sub.localhost", "127.0.0.1", "evillocalhost", "localhost.evil.com", "evil.com", None,
                "LOCALHOST", "b\u00fccher.localhost", "[::1]:5000", "[::2]", "a..localhost", ".localhost", "x" * 64 + ".localhost",
-               "127.0.0.1.evil.com", "sub\u3002localhost"]
+               "127.0.0.1.evil.com", "sub\u3002localhost", "localhost\uff1aevil.com"]
 
 
 def commands(secret_val):
@@ -1035,18 +1054,29 @@ def run(chk: Check, consts: dict | None) -> None:
                 impl = "exn:" + type(e).__name__
             add(f"sp {cps(h)}", impl, "sp")
 
-    # get_host / wsgi.get_host / Request.host
-    gh_hosts = hosts if not quick else hosts[:260]
+    # get_host / wsgi.get_host / Request.host (+ url, base_url, host_url, url_root) through the real Request wrapper
+    gh_hosts = hosts if not quick else hosts[:300]
     servers = [("localhost", 80), ("localhost", 8080), ("::1", 5000), ("[::1]", 443), ("/tmp/sock", None), ("127.0.0.1", 443),
-               ("evil.com", 80), ("", 80), ("b\u00fccher.example", 80), ("a..b", 80), None]
-    gh_lists = [None, [".localhost", "127.0.0.1"], ["[::1]"], [".example.com", "example.org:8080"], ["localhost"]]
+               ("evil.com", 80), ("", 80), ("b\u00fccher.example", 80), ("a..b", 80), None,
+               ("10.0.0.80", 80), ("web-0", 80), ("10.1.2.34", 443), ("shard-3.db44", 443), ("2001:db8::80", 80), ("node8", 8080)]
+    gh_lists = [None, [".localhost", "127.0.0.1"], ["[::1]"], [".example.com", "example.org:8080"], ["localhost"], [], ()]
+    req_attrs = ["host", "url", "base_url", "host_url", "url_root"]
     n_gh = 0
+
+    def outcome(fn):
+        try:
+            return "ok " + cps(with_timeout(fn, 5))
+        except SecurityError:
+            return "exn:SecurityError"
+        except Exception as e:  # noqa: BLE001
+            return "exn:" + type(e).__name__
+
     for i, h in enumerate(gh_hosts):
         for scheme in (["http", "https"] if quick else ["http", "https", "ws", "wss", "ftp"]):
-            for tl in gh_lists:
-                server = servers[(i + len(scheme) + (len(tl) if tl else 0)) % len(servers)] if (h is None or i % 5 == 0) else ("localhost", 80)
+            for li, tl in enumerate(gh_lists):
+                server = servers[(i + len(scheme) + li) % len(servers)] if (h is None or i % 4 == 0) else ("localhost", 80)
                 hh = h
-                env = create_environ("/", "http://localhost/")
+                env = create_environ("/p", "http://localhost/")
                 env["wsgi.url_scheme"] = scheme
                 env.pop("HTTP_HOST", None)
                 env.pop("SERVER_NAME", None)
@@ -1057,38 +1087,42 @@ def run(chk: Check, consts: dict | None) -> None:
                     env["SERVER_NAME"] = server[0]
                     if server[1] is not None:
                         env["SERVER_PORT"] = str(server[1])
+                inp = {"kind": "gethost", "scheme": scheme, "host": hh, "server": server, "trusted": tl}
+                want = spec_get_host(scheme, hh, server)
+                want_refused = tl is not None and not spec_trusted_anycase(want, list(tl))
+                entries = [("sansio.get_host", lambda: su.get_host(scheme, hh, server, tl)),
+                           ("wsgi.get_host", lambda: wwsgi.get_host(env, tl)),
+                           ("Request.host[class attribute]", lambda: _req_attr(Request, env, tl, "host", True))]
+                entries += [(f"Request.{a}", (lambda a=a: _req_attr(Request, env, tl, a, False))) for a in req_attrs]
                 obs = []
-                for name, fn in (("sansio.get_host", lambda: su.get_host(scheme, hh, server, tl)),
-                                 ("wsgi.get_host", lambda: wwsgi.get_host(env, tl)),
-                                 ("Request.host", lambda: _req_host(Request, env, tl))):
-                    try:
-                        obs.append("ok " + cps(with_timeout(fn, 5)))
-                    except SecurityError:
-                        obs.append("exn:SecurityError")
-                    except Exception as e:  # noqa: BLE001
-                        obs.append("exn:" + type(e).__name__)
-                        chk.fail(f"gethost-raises:{type(e).__name__}", f"{name} fails with {type(e).__name__}: {e} instead of SecurityError",
-                                 {"kind": "gethost", "scheme": scheme, "host": hh, "server": server, "trusted": tl})
+                for name, fn in entries:
+                    o = outcome(fn)
+                    is_host = name in ("sansio.get_host", "wsgi.get_host", "Request.host", "Request.host[class attribute]")
+                    if is_host:
+                        obs.append(o)
+                        if o.startswith("exn:") and o != "exn:SecurityError":
+                            chk.fail(f"gethost-raises:{o[4:]}", f"{name} fails with {o[4:]} instead of SecurityError", dict(inp, entry=name))
+                        if o.startswith("ok ") and uncps(o[3:]) != want:
+                            chk.fail("gethost-value", f"{name} returns {uncps(o[3:])!r}; the host with only the scheme's default port removed is {want!r}",
+                                     dict(inp, entry=name))
+                    if want_refused and o.startswith("ok "):
+                        empty = tl is not None and len(tl) == 0
+                        chk.fail(f"accepted-untrusted:{'empty-trusted-list' if empty else host_class(want, list(tl))}",
+                                 f"{name} accepts {uncps(o[3:])!r} although the trusted list {tl!r} does not admit the host", dict(inp, entry=name))
                 if len(set(obs)) != 1:
-                    chk.broken("correspondence", "get_host entry points disagree", f"{obs} for host {hh!r} server {server!r}",
-                               case={"host": hh, "server": server, "trusted": tl})
-                if obs[0].startswith("ok ") and tl is not None:
-                    from .vlib import uncps
-                    val = uncps(obs[0][3:])
-                    if not spec_trusted_anycase(val, tl):
-                        chk.fail(f"host-accepted:{host_class(val, tl)}", "get_host returns an untrusted host",
-                                 {"kind": "gethost", "scheme": scheme, "host": hh, "server": server, "trusted": tl})
+                    chk.broken("correspondence", "get_host entry points disagree", f"{obs} for host {hh!r} server {server!r} trusted {tl!r}",
+                               case=inp)
                 sn = server[0] if server else None
                 sp = str(server[1]) if server and server[1] is not None else None
                 # keys idna may be asked about: the assembled host is derived from header / server name
-                cand = [hh, sn, f"[{sn}]" if sn else None, f"{sn}:{sp}" if sn else None, f"[{sn}]:{sp}" if sn else None]
+                cand = [hh, sn, f"[{sn}]" if sn else None, f"{sn}:{sp}" if sn else None, f"[{sn}]:{sp}" if sn else None, want]
                 cand += [c[:-3] for c in cand if c and c.endswith(":80")] + [c[:-4] for c in cand if c and c.endswith(":443")]
                 keys = []
                 for c in cand:
-                    keys += idna_keys(c, tl or [])
-                add(f"gh {cps(scheme)} {ostr(hh)} {ostr(sn)} {ostr(sp)} {'~~' if tl is None else olist(tl)} {idna_table(keys)}", obs[0], "gh")
+                    keys += idna_keys(c, list(tl) if tl else [])
+                add(f"gh {cps(scheme)} {ostr(hh)} {ostr(sn)} {ostr(sp)} {'~~' if tl is None else olist(list(tl))} {idna_table(keys)}", obs[0], "gh")
                 n_gh += 1
-                chk.case(("gh", scheme, hh, server, tuple(tl) if tl else None), nontrivial=tl is not None)
+                chk.case(("gh", scheme, hh, server, tuple(tl) if tl is not None else None), nontrivial=tl is not None)
     chk.count("get_host cases", n_gh)
 
     # int() model (used for frm and the cookie time stamp)
@@ -1355,10 +1389,33 @@ def run(chk: Check, consts: dict | None) -> None:
             chk.count("model:mismatches", mism)
 
 
-def _req_host(Request, env, tl):
-    r = Request(env)
-    r.trusted_hosts = tl
-    return r.host
+def _req_attr(Request, env, tl, attr, class_level):
+    """one attribute of a fresh werkzeug.wrappers.Request whose trusted_hosts is tl (set on the instance or on a subclass)."""
+    if class_level:
+        cls = type("ConfiguredRequest", (Request,), {"trusted_hosts": tl})
+        r = cls(env)
+    else:
+        r = Request(env)
+        r.trusted_hosts = tl
+    return getattr(r, attr)
+
+
+def spec_get_host(scheme, host_header, server) -> str:
+    """documented reading of get_host: Host header, else SERVER_NAME (bracketed when IPv6) + port; only the
+    scheme's default port suffix is removed."""
+    host = ""
+    if host_header is not None:
+        host = host_header
+    elif server is not None:
+        host = server[0]
+        if ":" in host and not host.startswith("["):
+            host = "[" + host + "]"
+        if server[1] is not None:
+            host = host + ":" + str(server[1])
+    suffix = {"http": ":80", "ws": ":80", "https": ":443", "wss": ":443"}.get(scheme)
+    if suffix and host.endswith(suffix):
+        host = host[: len(host) - len(suffix)]
+    return host
 
 
 def main(chk: Check) -> None:
@@ -1426,6 +1483,24 @@ def replay(rep: dict) -> int:
             print("get_host ->", su.get_host(inp["scheme"], inp["host"], tuple(inp["server"]) if inp["server"] else None, inp["trusted"]))
         except Exception as e:  # noqa: BLE001
             print("raises", type(e).__name__, e)
+        from werkzeug.test import create_environ
+        from werkzeug.wrappers import Request
+        env = create_environ("/p", "http://localhost/")
+        env["wsgi.url_scheme"] = inp["scheme"]
+        for k in ("HTTP_HOST", "SERVER_NAME", "SERVER_PORT"):
+            env.pop(k, None)
+        if inp["host"] is not None:
+            env["HTTP_HOST"] = inp["host"]
+        if inp["server"]:
+            env["SERVER_NAME"] = inp["server"][0]
+            if inp["server"][1] is not None:
+                env["SERVER_PORT"] = str(inp["server"][1])
+        for attr in ("host", "url"):
+            try:
+                print(f"Request.{attr} with trusted_hosts={inp['trusted']!r} ->", _req_attr(Request, env, inp["trusted"], attr, False))
+            except Exception as e:  # noqa: BLE001
+                print(f"Request.{attr} raises", type(e).__name__)
+        print("documented value:", repr(spec_get_host(inp["scheme"], inp["host"], inp["server"])))
         return 0
     real_time, real_log = wd.time, wd._log
     try:
